@@ -61,7 +61,10 @@ class ServerContext(object):
         # and that the token always has 30th bit set
         token &= 0x7fffffff
         token |= 0x40000000
-        while token == 0 or token in self.connections or token in self.temp_connections:
+        # the connection pools are keyed by address: collect the tokens in use
+        tokens = set(c.token for c in self.connections.values())
+        tokens.update(c.token for c in self.temp_connections.values())
+        while token == 0 or token in tokens:
             token, = struct.unpack(">L", os.urandom(4))
             token &= 0x7fffffff
             token |= 0x40000000
